@@ -47,6 +47,9 @@ ATTR = {
     ('kgpo', '_pos_offsets'): ('kg_pos_offsets', 'list:po'), ('kgpo', '_alt_offsets'): ('kg_alt_offsets', 'list:po'),
     ('kgpo', '_ref_del_mask'): ('kg_del', 'list:int'), ('kgpo', '_shift_mask'): ('kg_shift', 'list:int'), ('kgpo', '_alt_ins_mask'): ('kg_ins', 'list:int'),
 }
+# parameters annotated `str` that the callers fill with DNA text (an abstraction: the model's sequences are lists of nucleotides, a non-ACGT
+# character would make the DnaStr constructor raise ValueError): (function key, parameter) -> 'dna'
+DNA_PARAMS = {('dna.replace_substr', 'alt'), ('dna.insert_substr', 'alt')}
 # mutable records: methods that assign self.<field> return the new record (next to their value); fields re-read from the source
 MUT_RECORDS = {'OligoGenerationInfo': ('counts', 'mkCounts', [('too_short', 'too_short'), ('in_range', 'in_range_n'), ('too_long', 'too_long')])}
 # records whose field list (names, annotations, order) is re-read from the source before their attributes are translated
@@ -60,9 +63,9 @@ CTOR = {'PosOffset': ('po', ['pos', 'offset'], ['int', 'int'])}
 # python annotation -> model type tag
 ANNOT = {'int': 'int', 'bool': 'bool', 'Strand': 'strand', 'Exon': 'exon', 'UIntRange': 'range', 'IntPatternBuilder': 'pt', 'CdsSeq': 'cds',
          'TargetonConfig': 'tcfg', 'str': 'str', 'str | None': 'ostr', 'VariantType': 'vtype', 'Variant': 'variant', 'VarStats': 'vstat',
-         'SearchType': 'search', 'SearchType | None': 'option:search', 'Options': 'opt', 'OligoGenerationInfo': 'counts', 'MetaRow': 'mrow', 'int | None': 'option:int', 'Callable[[int], bool]': 'fn:int->bool', 'list[VarStats]': 'list:vstat', 'Iterable[VarStats]': 'list:vstat', 'list[PosOffset]': 'list:po', 'array': 'list:int'}
+         'SearchType': 'search', 'SearchType | None': 'option:search', 'Options': 'opt', 'OligoGenerationInfo': 'counts', 'MetaRow': 'mrow', 'int | None': 'option:int', 'DnaStr': 'dna', 'Callable[[int], bool]': 'fn:int->bool', 'list[VarStats]': 'list:vstat', 'Iterable[VarStats]': 'list:vstat', 'list[PosOffset]': 'list:po', 'array': 'list:int'}
 COQ_TYPE = {'int': 'Z', 'bool': 'bool', 'strand': 'strand', 'exon': 'exon', 'range': 'range', 'pt': 'pt', 'cds': 'cds_seq', 'tcfg': 'tcfg', 'unit': 'unit',
-            'str': 'string', 'ostr': '(option string)', 'vtype': 'vtype', 'strenum': 'string', 'variant': 'variant', 'vstat': 'vstat', 'po': '(Z * Z)', 'kgpo': 'kgpo', 'search': 'search', 'counts': 'counts', 'opt': 'opts', 'mrow': 'meta_row'}
+            'str': 'string', 'ostr': '(option string)', 'vtype': 'vtype', 'strenum': 'string', 'variant': 'variant', 'vstat': 'vstat', 'po': '(Z * Z)', 'kgpo': 'kgpo', 'search': 'search', 'counts': 'counts', 'opt': 'opts', 'mrow': 'meta_row', 'dna': 'dna'}
 
 
 def coq_type(t: str) -> str:
@@ -150,6 +153,12 @@ class Translator:
             if e.id in self.consts:
                 return self.consts[e.id]
             raise TransError(f'unknown name {e.id}')
+        if isinstance(e, ast.JoinedStr) and e.values and all(isinstance(p_, ast.FormattedValue) and p_.conversion == -1 and p_.format_spec is None for p_ in e.values):
+            probe = []
+            kinds = [self.expr(p_.value, env, probe)[1] for p_ in e.values]
+            if all(k_ == 'dna' for k_ in kinds):
+                parts = [self.expr(p_.value, env, binds)[0] for p_ in e.values]
+                return '(' + ' ++ '.join(parts) + ')', 'dna'      # the text of DNA strings put side by side
         if isinstance(e, ast.JoinedStr):
             # f-string: literal pieces and {int} / {str} / {optional str} / {call} pieces, no format specs
             parts = []
@@ -175,6 +184,14 @@ class Translator:
             if tk != kt:
                 raise TransError(f'key of {e.value.id}: {tk}')
             return f'({coqn} {k})', 'fnval:' + e.value.id      # every member of the key type has an entry (checked in module_facts)
+        if isinstance(e, ast.Subscript) and isinstance(e.slice, ast.Slice) and e.slice.step is None and (e.slice.lower is None) != (e.slice.upper is None):
+            v, t = self.expr(e.value, env, binds)
+            if t != 'dna':
+                raise TransError('slices are only translated on DNA strings')
+            b, tb = self.expr(e.slice.upper if e.slice.lower is None else e.slice.lower, env, binds)
+            if tb != 'int':
+                raise TransError('slice bound')
+            return (f'(py_slice_upto {v} {b})' if e.slice.lower is None else f'(py_slice_from {v} {b})'), 'dna'
         if isinstance(e, ast.Subscript):
             v, t = self.expr(e.value, env, binds)
             i, ti = self.expr(e.slice, env, binds)
@@ -205,6 +222,8 @@ class Translator:
             ops = {ast.Add: '+', ast.Sub: '-', ast.Mult: '*', ast.FloorDiv: '/', ast.Mod: 'mod'}
             if isinstance(e.op, ast.Add) and ta == 'str' and tb == 'str':
                 return f'({a} ++ {b})%string', 'str'
+            if isinstance(e.op, ast.Add) and ta == 'dna' and tb == 'dna':
+                return f'({a} ++ {b})', 'dna'
             if isinstance(e.op, ast.Add) and ta.startswith('list:') and tb.startswith('list:'):
                 t = self.join(ta, tb)
                 return f'({a} ++ {b})', t
@@ -467,8 +486,10 @@ class Translator:
                     x = self.tmp()
                     binds.append((x, f'u8_zeros {args[0][0]}'))
                     return x, 'list:int'
-                if f.id == 'len' and len(args) == 1 and args[0][1].startswith('list:'):
+                if f.id == 'len' and len(args) == 1 and (args[0][1].startswith('list:') or args[0][1] == 'dna'):
                     return f'(zlen {args[0][0]})', 'int'
+                if f.id == 'DnaStr' and len(args) == 1 and args[0][1] == 'dna' and not e.keywords:
+                    return args[0][0], 'dna'       # DnaStr(<DNA text>): the validation cannot fail on a list of nucleotides
                 if f.id == 'abs' and len(args) == 1:
                     return f'(Z.abs {args[0][0]})', 'int'
                 if f.id in ('max', 'min') and len(args) == 2:
@@ -1227,7 +1248,7 @@ class Translator:
                 continue
             if ann not in ANNOT:
                 raise TransError(f'{key}: parameter type {ann}')
-            params.append((a.arg, ANNOT[ann]))
+            params.append((a.arg, 'dna' if (key, a.arg) in DNA_PARAMS and ann == 'str' else ANNOT[ann]))
         env = {n: (cname(n), t) for n, t in params}
         defaults = {}
         pos = [a for a in node.args.args if a.arg not in ('self', 'cls')]
